@@ -23,7 +23,11 @@ RULE = (
     "(translations e_i, x_j e_i, rigid rotations) on one discretization; non-trivial = "
     "non-constant field on a grid that is not K-orthogonal (perturbed, simplex or affine "
     "image) with at least one Neumann and one Dirichlet boundary face; distinct by "
-    "(grid, mu, lambda, Neumann set, field)"
+    "(grid, mu, lambda, Neumann set, field, eta, pass); axes: documented scalar `mpsa_eta` in "
+    "{default, 0, 0.25, 1/3}, uniform grid scale in {1, 1e-3, 1e3}; on the eta / scale "
+    "sub-alphabet every discretization is repeated on the SAME grid and data dictionary and "
+    "the second set of matrices is checked too; grid, stiffness and bc arrays are digested "
+    "before / after every discretize (purity)"
 )
 ASSUMPTIONS = [
     "constant isotropic stiffness; every boundary face is entirely Dirichlet or entirely "
@@ -33,18 +37,28 @@ ASSUMPTIONS = [
     "traction required exact on every non-Neumann face; for translations zero on every "
     "face; boundary displacement required exact on Dirichlet faces",
     "tolerance 1e-9 * (2mu+lambda) * max|n_f| * (|grad u| + |u|/h_min) for tractions and "
-    "1e-9 * max|u| for displacements (measured floor 1e-14 / 5e-16)",
+    "1e-9 * max|u| for displacements (measured floor 1e-14 / 5e-16); all scales are geometric, "
+    "so the tolerances are relative under grid scaling",
+    "`mpsa_eta` is a documented scalar in [0,1); the continuity point on boundary faces stays at "
+    "the face centre for scalar eta (documented), so exactness must hold for every eta",
+    "the oracle geometry (centres, normals) is copied before the first discretize: a "
+    "discretization that modifies its grid / parameters is reported (purity) and its second "
+    "pass is compared against the original geometry",
 ]
 BOUNDS = {
     "quick": "2-d: C(2,2), T(2,2) x 5 offsets of the interior node x all 256 assignments; "
     "C(3,2)@shear side-wise + <=2 flips; 3-d: Tet(1,1,1)~ independent Neumann sets <=2, "
     "C(2,2,2)@shear <=1; (mu,lambda) in {(1,1),(1,10),(3,0)}; inverter python, plus numba on "
-    "all-Dirichlet and side-wise assignments",
+    "all-Dirichlet and side-wise assignments; eta in {0,0.25,1/3} and scale in {1e-3,1e3} "
+    "(with repeated discretize) on C(2,2)~, T(2,2)~ (side-wise + <=2 flips), Tet(1,1,1)~, "
+    "C(2,2,2)@shear (<=1), (mu,lambda)=(1,10)",
     "thorough": "2-d: C(2,2), T(2,2) x all 9 offsets x all 256 assignments; C(3,2) x all 81 "
     "offset pairs x (side-wise + <=2 flips); C(3,2), T(3,2) @shear/@skew all 1024 "
     "assignments; 3-d: Tet(1,1,1) x 27 offsets of a corner node x independent sets <=3; "
     "C(2,2,2) @id/@shear/@skew independent sets <=3; Tet(2,1,1)@shear <=2; Tet(2,2,2)~ <=1; "
-    "(mu,lambda) in {(1,1),(1,10),(3,0)}",
+    "(mu,lambda) in {(1,1),(1,10),(3,0)}; eta in {0,0.25,1/3}: C(2,2)~, T(2,2)~ all 256 "
+    "assignments, Tet(1,1,1)~, C(2,2,2)@shear independent sets <=2, all three Lame pairs; scale "
+    "in {1e-3,1e3}: same grids, side-wise + <=2 flips / <=1",
 }
 MIN_CLASSES = 6
 CHUNK = 4
@@ -54,24 +68,52 @@ TOL = 1e-9
 KW = "mechanics"
 
 
-def _mask_cases(spec, nb, per=64, inverter="python"):
+def _mask_cases(spec, nb, per=64, inverter="python", mulam=None, **extra):
     out = []
-    for mu, lam in MULAM:
+    for mu, lam in mulam or MULAM:
         for lo in range(0, 2**nb, per):
-            out.append({"grid": spec, "mu": mu, "lam": lam, "inverter": inverter,
-                        "assign": {"mode": "masks", "lo": lo, "hi": min(lo + per, 2**nb)}})
+            out.append(dict({"grid": spec, "mu": mu, "lam": lam, "inverter": inverter,
+                             "assign": {"mode": "masks", "lo": lo, "hi": min(lo + per, 2**nb)}}, **extra))
     return out
 
 
-def _indep_cases(spec, k, nparts, inverter="python"):
-    return [{"grid": spec, "mu": mu, "lam": lam, "inverter": inverter,
-             "assign": {"mode": "indep", "max_size": k, "part": p, "nparts": nparts}}
-            for mu, lam in MULAM for p in range(nparts)]
+def _indep_cases(spec, k, nparts, inverter="python", mulam=None, **extra):
+    return [dict({"grid": spec, "mu": mu, "lam": lam, "inverter": inverter,
+                  "assign": {"mode": "indep", "max_size": k, "part": p, "nparts": nparts}}, **extra)
+            for mu, lam in mulam or MULAM for p in range(nparts)]
 
 
-def _side_cases(spec, inverter="python"):
-    return [{"grid": spec, "mu": mu, "lam": lam, "inverter": inverter,
-             "assign": {"mode": "sides", "part": 0, "nparts": 1}} for mu, lam in MULAM]
+def _side_cases(spec, inverter="python", mulam=None, **extra):
+    return [dict({"grid": spec, "mu": mu, "lam": lam, "inverter": inverter,
+                  "assign": {"mode": "sides", "part": 0, "nparts": 1}}, **extra) for mu, lam in mulam or MULAM]
+
+
+ETAS = [0.0, 0.25, 1.0 / 3.0]  # None (default) is the main alphabet
+SCALES = [1e-3, 1e3]
+
+
+def _axes_cases(tier):
+    """eta / scale axes with repeated discretization on the same grid and data dict."""
+    fam2 = [{"kind": "cart", "n": [2, 2], "pert": [[4, [1, -1]]]}, {"kind": "tri", "n": [2, 2], "pert": [[4, [1, -1]]]}]
+    fam3 = [{"kind": "tet", "n": [1, 1, 1], "pert": [[7, [1, -1, 1]]]}, {"kind": "cart", "n": [2, 2, 2], "map": "shear"}]
+    out = []
+    quick = tier == "quick"
+    ml = [(1.0, 10.0)] if quick else None
+    for eta in ETAS:
+        for spec in fam2:
+            if quick:
+                out += _side_cases(spec, mulam=ml, eta=eta, reuse=True) + _indep_cases(spec, 2, 1, mulam=ml, eta=eta, reuse=True)
+            else:
+                out += _mask_cases(spec, 8, mulam=ml, eta=eta, reuse=True)
+        for spec in fam3:
+            out += _indep_cases(spec, 1 if quick else 2, 1 if quick else 2, mulam=ml, eta=eta, reuse=True)
+    for sc in SCALES:
+        for spec in fam2:
+            sp = dict(spec, scale=sc)
+            out += _side_cases(sp, mulam=[(1.0, 10.0)], reuse=True) + _indep_cases(sp, 2, 1, mulam=[(1.0, 10.0)], reuse=True)
+        for spec in fam3:
+            out += _indep_cases(dict(spec, scale=sc), 1, 1, mulam=[(1.0, 10.0)], reuse=True)
+    return out
 
 
 def cases(tier):
@@ -100,6 +142,7 @@ def cases(tier):
         out += _side_cases(dict(c22, pert=[[4, [1, -1]]]), inverter="numba")
         out += _side_cases(dict(t22, pert=[[4, [1, -1]]]), inverter="numba")
         out += _indep_cases(dict(tet1, pert=[[7, [1, -1, 1]]]), 1, 1, inverter="numba")
+        out += _axes_cases(tier)
         return out
     n1, n2 = G.interior_nodes(c32)
     for o1 in G.lattice(2):
@@ -122,6 +165,7 @@ def cases(tier):
         out += _mask_cases(dict(base, pert=[[node, o]]), 8, inverter="numba")
     out += _indep_cases(dict(tet1, pert=[[7, [1, -1, 1]]]), 2, 2, inverter="numba")
     out += _indep_cases(dict(c222, map="shear"), 1, 1, inverter="numba")
+    out += _axes_cases(tier)
     return out
 
 
@@ -144,14 +188,22 @@ def run_case(case) -> Outcome:
     nf, nc = g.num_faces, g.num_cells
     bf = G.boundary_faces(g)
     sgn = G.outward_sign(g)
-    xc, xf, nrm = g.cell_centers[:d], g.face_centers[:d], g.face_normals[:d]
+    # copies: the oracle must not follow a grid that the code under test modified
+    xc, xf, nrm = g.cell_centers[:d].copy(), g.face_centers[:d].copy(), g.face_normals[:d].copy()
+    eta = case.get("eta", None)
+    reuse = bool(case.get("reuse", False))
     hmin = G.h_min(g)
     amax = float(np.linalg.norm(nrm, axis=0).max())
     fields = F.affine_vector_basis(d)
     korth = spec["kind"] == "cart" and not spec.get("pert") and spec.get("map", "id") == "id"
     gname = G.name(spec)
     gcls = f"{d}d/{_gridclass(spec)}/{case['inverter']}"
+    if eta is not None:
+        gcls += f"/eta={eta:.2f}"
+    if spec.get("scale", 1) != 1:
+        gcls += f"/x{spec['scale']:g}"
     stiff = pp.FourthOrderTensor(mu * np.ones(nc), lam * np.ones(nc))
+    dig0 = G.digest(g, stiff)
 
     for neu in F.enumerate_assignments(case["assign"], spec, g):
         neu = [int(f) for f in neu]
@@ -162,56 +214,69 @@ def run_case(case) -> Outcome:
         bc.is_dir[:, neu] = False
         bc.is_neu[:, neu] = True
         params = {"fourth_order_tensor": stiff, "bc": bc, "inverter": case["inverter"]}
+        if eta is not None:
+            params["mpsa_eta"] = eta
         data = pp.initialize_data({}, KW, params)
         bccls = "allD" if not neu else ("allN" if dirf.size == 0 else f"mix{min(len(neu), 4)}")
-        try:
-            disc = pp.Mpsa(KW)
-            disc.discretize(g, data)
-            M = data[pp.DISCRETIZATION_MATRICES][KW]
-            S, BS = M[disc.stress_matrix_key], M[disc.bound_stress_matrix_key]
-            DC, DF = M[disc.bound_displacement_cell_matrix_key], M[disc.bound_displacement_face_matrix_key]
-        except Exception as e:
-            out.violate("Mpsa.discretize raised on an admissible input", error=repr(e), grid=spec,
-                        mu=mu, lam=lam, neumann_faces=neu)
-            out.ev(f"{gcls}/{bccls}/exception")
-            continue
-        for label, kind, a, Gm in fields:
-            uc = a[:, None] + Gm @ xc
-            uf = a[:, None] + Gm @ xf
-            T = F.hooke(mu, lam, Gm) @ nrm  # exact traction w.r.t. the face normal
-            bcv = np.zeros((d, nf))
-            bcv[:, dirf] = uf[:, dirf]
-            bcv[:, neu] = T[:, neu] * sgn[neu]
-            ucv, bcvv = uc.ravel("F"), bcv.ravel("F")
-            tr = (S @ ucv + BS @ bcvv).reshape((d, nf), order="F")
-            ub = (DC @ ucv + DF @ bcvv).reshape((d, nf), order="F")
-            gnorm = float(np.abs(Gm).max())
-            umax = float(max(np.abs(uc).max(), np.abs(uf).max(), 1.0))
-            tol_t = TOL * (2 * mu + lam) * amax * (gnorm + umax / hmin)
-            tol_u = TOL * umax
-            faces = np.arange(nf) if kind == "transl" else np.where(~is_neu)[0]
-            err_t = np.abs(tr - T)[:, faces]
-            bad = None
-            if faces.size and (not np.all(np.isfinite(tr)) or err_t.max() > tol_t):
-                k = int(np.nanargmax(err_t.max(axis=0))) if np.all(np.isfinite(err_t)) else 0
-                f = int(faces[k])
-                bad = ("MPSA traction differs from sigma(u).n for a linear field", f, tr[:, f], T[:, f], tol_t)
-            elif dirf.size and (not np.all(np.isfinite(ub)) or np.abs(ub - uf)[:, dirf].max() > tol_u):
-                k = int(np.argmax(np.abs(ub - uf)[:, dirf].max(axis=0)))
-                f = int(dirf[k])
-                bad = ("MPSA boundary displacement differs from u on a Dirichlet face", f, ub[:, f], uf[:, f], tol_u)
-            nontrivial = (not korth) and kind != "transl" and bool(neu) and dirf.size > 0
-            key = (gname, mu, lam, tuple(neu), label, case["inverter"]) if nontrivial else None
-            if bad is not None:
+        disc = pp.Mpsa(KW)
+        dig_bc = G.digest(bc)
+        for npass in range(2 if reuse else 1):
+            tag = "" if npass == 0 else "/reuse"
+            try:
+                # second pass: same discretization object, same grid, same data dictionary
+                disc.discretize(g, data)
+                M = data[pp.DISCRETIZATION_MATRICES][KW]
+                S, BS = M[disc.stress_matrix_key], M[disc.bound_stress_matrix_key]
+                DC, DF = M[disc.bound_displacement_cell_matrix_key], M[disc.bound_displacement_face_matrix_key]
+            except Exception as e:
+                out.violate("Mpsa.discretize raised on an admissible input", error=repr(e), grid=spec,
+                            mu=mu, lam=lam, neumann_faces=neu, eta=eta, discretize_pass=npass + 1)
+                out.ev(f"{gcls}/{bccls}/exception{tag}")
+                break
+            if G.digest(g, stiff) != dig0 or G.digest(bc) != dig_bc:
                 if len(out.violations) < 5:
-                    out.violate(bad[0], grid=spec, grid_name=gname, mu=mu, lam=lam, neumann_faces=neu,
-                                field=label, a=a, grad=Gm, face=bad[1], observed=bad[2], expected=bad[3],
-                                tol=bad[4], inverter=case["inverter"])
-                out.ev(f"{gcls}/{bccls}/{kind}/VIOLATION", key)
-            else:
-                out.ev(f"{gcls}/{bccls}/{kind}", key)
+                    out.violate("Mpsa.discretize modified its grid / stiffness / boundary-condition arguments",
+                                grid=spec, grid_name=gname, mu=mu, lam=lam, neumann_faces=neu, eta=eta,
+                                discretize_pass=npass + 1)
+                out.ev(f"{gcls}/{bccls}/impure/VIOLATION")
+                dig0, dig_bc = G.digest(g, stiff), G.digest(bc)
+            for label, kind, a, Gm in fields:
+                uc = a[:, None] + Gm @ xc
+                uf = a[:, None] + Gm @ xf
+                T = F.hooke(mu, lam, Gm) @ nrm  # exact traction w.r.t. the face normal
+                bcv = np.zeros((d, nf))
+                bcv[:, dirf] = uf[:, dirf]
+                bcv[:, neu] = T[:, neu] * sgn[neu]
+                ucv, bcvv = uc.ravel("F"), bcv.ravel("F")
+                tr = (S @ ucv + BS @ bcvv).reshape((d, nf), order="F")
+                ub = (DC @ ucv + DF @ bcvv).reshape((d, nf), order="F")
+                gnorm = float(np.abs(Gm).max())
+                umax = float(max(np.abs(uc).max(), np.abs(uf).max(), 1.0))
+                tol_t = TOL * (2 * mu + lam) * amax * (gnorm + umax / hmin)
+                tol_u = TOL * umax
+                faces = np.arange(nf) if kind == "transl" else np.where(~is_neu)[0]
+                err_t = np.abs(tr - T)[:, faces]
+                bad = None
+                if faces.size and (not np.all(np.isfinite(tr)) or err_t.max() > tol_t):
+                    k = int(np.nanargmax(err_t.max(axis=0))) if np.all(np.isfinite(err_t)) else 0
+                    f = int(faces[k])
+                    bad = ("MPSA traction differs from sigma(u).n for a linear field", f, tr[:, f], T[:, f], tol_t)
+                elif dirf.size and (not np.all(np.isfinite(ub)) or np.abs(ub - uf)[:, dirf].max() > tol_u):
+                    k = int(np.argmax(np.abs(ub - uf)[:, dirf].max(axis=0)))
+                    f = int(dirf[k])
+                    bad = ("MPSA boundary displacement differs from u on a Dirichlet face", f, ub[:, f], uf[:, f], tol_u)
+                nontrivial = (not korth) and kind != "transl" and bool(neu) and dirf.size > 0
+                key = (gname, mu, lam, tuple(neu), label, case["inverter"], eta, npass) if nontrivial else None
+                if bad is not None:
+                    if len(out.violations) < 5:
+                        out.violate(bad[0], grid=spec, grid_name=gname, mu=mu, lam=lam, neumann_faces=neu,
+                                    field=label, a=a, grad=Gm, face=bad[1], observed=bad[2], expected=bad[3],
+                                    tol=bad[4], inverter=case["inverter"], eta=eta, discretize_pass=npass + 1)
+                    out.ev(f"{gcls}/{bccls}/{kind}{tag}/VIOLATION", key)
+                else:
+                    out.ev(f"{gcls}/{bccls}/{kind}{tag}", key)
         if not out.samples and neu and dirf.size:
-            out.samples.append({"grid": gname, "mu": mu, "lam": lam, "neumann_faces": neu,
+            out.samples.append({"grid": gname, "mu": mu, "lam": lam, "neumann_faces": neu, "mpsa_eta": eta,
                                 "fields": [f[0] for f in fields], "num_faces": int(nf)})
     return out
 
